@@ -1,4 +1,5 @@
 import ClapProofs.C01
+import ClapProofs.C03
 import ClapProofs.C04
 import ClapProofs.C07
 import ClapProofs.C13
